@@ -148,7 +148,8 @@ func RulesTokens(rs []RuleSpec) []string {
 	return t
 }
 
-var Segs = []string{"a", "b", "ab", "img", "x.y"}
+// (mixed case: patterns are matched case-sensitively in their prefix; "$5": client text that looks like a placeholder)
+var Segs = []string{"a", "b", "ab", "img", "x.y", "API", "Img", "aB", "c$5"}
 var Hosts = []string{"h1.test", "h2.test", "h3.test"}
 var KnownMethods = []string{"GET", "HEAD", "POST", "PUT", "DELETE", "OPTIONS", "TRACE"}
 
